@@ -62,7 +62,7 @@ def run_case(case, ch, workdir):
         if status == "hang":
             violation(res, "no-termination", sig, f"simulated submission did not terminate: {val} (workflow: {desc})")
         elif rstat == "ok" and status != "ok":
-            violation(res, "fails-only-under-pool", sig, f"debug worker succeeded, cf schedule raised {val.get('type')}: {val.get('msg', '')[:400]} (workflow: {desc}, n_procs={prof['n_procs']}, max_concurrent={mc})")
+            violation(res, "fails-only-under-pool", sig, f"debug worker succeeded, cf schedule raised {val.get('type')}: {(val.get('msg', '')[:400] + ' ... ' + val.get('msg', '')[-700:])} (workflow: {desc}, n_procs={prof['n_procs']}, max_concurrent={mc})")
         elif rstat != "ok" and status == "ok":
             violation(res, "fails-only-under-debug", sig, f"cf schedule succeeded, debug worker raised {rval['type']}: {rval['msg'][:300]} (workflow: {desc})")
         elif rstat == "ok" and val != rval:
